@@ -96,6 +96,13 @@ func constStringArgs(fn *ssa.Function, callee string, idx int) map[string]bool {
 }
 
 func runC02(c *Ctx) {
+	c.rule("C02-R12", "INTCMP (both engines): each ordering and +, -, * arm of the interpreter's operator dispatch and of the VM's opcode dispatch performs the operation on two integer payloads without numeric conversion: an engine that compares or adds int x int through float64 disagrees with the other one for integers above 2^53 (snowflake ids, nanosecond timestamps)")
+	nI := intOpAudit(c, "C02-R12", interpPkg, "Interpreter.evaluateBinaryOp", modPath+"/pkg/ast", "BinOp",
+		map[string]opClass{"Lt": opOrdering, "Le": opOrdering, "Gt": opOrdering, "Ge": opOrdering, "Add": opAdd, "Sub": opSub, "Mul": opMul}, "interpreter")
+	nV := intOpAudit(c, "C02-R12", vmPkg, "VM.executeInstruction", vmPath, "Opcode",
+		map[string]opClass{"OpLt": opOrdering, "OpLe": opOrdering, "OpGt": opOrdering, "OpGe": opOrdering, "OpAdd": opAdd, "OpSub": opSub, "OpMul": opMul}, "VM")
+	c.Sites["C02-R12#operator-arms"] = nI + nV
+	c.floor("C02-R12", 12)
 	c.rule("C02-R11", "SIB: forms that the interpreter treats specially are treated specially by the compiler: (a) the interpreter evaluates the right operand of && / || only when the left one does not decide (a conditional return between the two EvaluateExpression calls) - the compiler emits a conditional jump between compiling the two operands; (b) the interpreter's assign / reassign arms dispatch on a '.' in the target (field store) - the compiler's arms test for it too and report the form as unsupported instead of storing into a variable of that name")
 	{
 		// (a) find the function(s) of the compiler that emit OpAnd / OpOr; between compileExpression(Left) and compileExpression(Right)
